@@ -34,7 +34,7 @@ COUNTS = {"quick": 400, "thorough": 15000}
 NEAR = 1e-12
 ID0 = 1000.0           # state row 0 of original particle i is ID0 + i
 
-_stats = {"near_boundary_skipped": 0, "tie_cases": 0}
+_stats = {"near_boundary_skipped": 0, "tie_cases": 0, "threshold_within_ulps_excluded": 0, "prior_count_bound_skipped_ties_at_threshold": 0}
 
 
 # ------------------------------------------------------------------ generation
@@ -471,8 +471,13 @@ def oracle(c, impl, model):
     if bad:
         v.append(("C07:prior-right-not-a-copy", "output %d copies the state of input %d but not its mean/covariance" % (npri + bad[0], src[bad[0]])))
     # the floor(ratio*N) lowest-weight particles are the ones replaced: no copy of a particle lighter than the kept ones
+    # (the library sorts on Eigen's vectorised exp(), which is not monotone on adjacent doubles: log-weights within a
+    #  few ulps of the threshold are excluded from this clause and counted)
     thr = np.sort(lw)[npri]
-    low = [s for s in src if lw[s] < thr]
+    slack = 8 * float(np.spacing(abs(thr))) if np.isfinite(thr) else 0.0
+    if any(lw[s] < thr and lw[s] >= thr - slack for s in src):
+        _stats["threshold_within_ulps_excluded"] += 1
+    low = [s for s in src if lw[s] < thr - slack]
     if low:
         v.append(("C07:prior-kept-lowest", "a copy of particle %d (log-weight %r) survives although %d lighter-or-equal particles were to be replaced (threshold %r)" % (low[0], lw[low[0]], npri, thr)))
     # each resampled particle is a copy of the parent it reports
@@ -484,6 +489,8 @@ def oracle(c, impl, model):
     # count bound against the renormalised kept weights
     keptw = np.where(lw >= thr, w, 0.0)
     ties_at_thr = int(np.sum(lw == thr)) > 1 and int(np.sum(lw < thr)) < npri
+    if ties_at_thr:
+        _stats["prior_count_bound_skipped_ties_at_threshold"] += 1
     if keptw.sum() > 0 and not ties_at_thr:
         counts = np.bincount(np.array(src, dtype=int), minlength=N)
         count_bound(v, "C07:prior-count-bound", counts, nr * keptw / keptw.sum(), near)
